@@ -17,6 +17,24 @@ def run_k(ctx, out, harnesses, timeout, jobs=None, mem_gb=12):
         return []
     results = kani.run_many(ctx.tree, harnesses, timeout, jobs=jobs or min(8, ctx.jobs), mem_gb=mem_gb)
     summary = []
+    # failing harnesses of one family (same obligations, growing size) are confirmed by the concrete playback of the
+    # smallest failing instance only - each playback is another full cargo-kani run - and the families run in parallel
+    def size(h):
+        m = re.search(r'_(\d+)$', h)
+        return int(m.group(1)) if m else 0
+    plain_fails = [r for r in results if r.status == 'FAIL' and not (r.failed and 'expected panic did not occur' in r.failed[0])]
+    chosen = {}
+    for r in plain_fails:
+        f = family(r.harness)
+        if f not in chosen or size(r.harness) < size(chosen[f].harness):
+            chosen[f] = r
+    playback = {}
+    if chosen:
+        from concurrent.futures import ThreadPoolExecutor
+        with ThreadPoolExecutor(max_workers=min(len(chosen), 6)) as tp:
+            futs = {f: tp.submit(kani.replay_native, ctx.tree, r.harness) for f, r in chosen.items()}
+            for f, fu in futs.items():
+                playback[chosen[f].harness] = fu.result()
     for r in results:
         j = r.to_json()
         if r.status == 'FAIL' and r.failed and 'expected panic did not occur' in r.failed[0]:
@@ -26,7 +44,11 @@ def run_k(ctx, out, harnesses, timeout, jobs=None, mem_gb=12):
             key = 'K:%s:no_panic' % family(r.harness)
             out.add(Violation(key, '%s: %s' % (r.harness, r.failed[0]), replay={'engine': 'kani', 'harness': r.harness}, reproduced=True))
         elif r.status == 'FAIL':
-            rep, detail = kani.replay_native(ctx.tree, r.harness)
+            if r.harness not in playback:
+                j['native_playback'] = {'skipped': 'the smallest failing instance of this family (%s) is the one played back' % chosen[family(r.harness)].harness}
+                summary.append(j)
+                continue
+            rep, detail = playback[r.harness]
             j['native_playback'] = {'reproduced': rep, 'detail': detail}
             what = r.failed[-1] if r.failed else 'failed check'
             what = re.sub(r' @ .*$', '', what).strip('"')
